@@ -69,6 +69,8 @@ def run(prog, rep, tier, repo):
                 rep.undecided('kernel-form', 'kernel-form:%s' % tagk, 'several return values')
                 continue
             t = prog.inline(rets[0], only=lambda p_: p_.startswith(KS))          # the closed form may live in a straight-line helper of the kernel module
+            from ..objstate import fold as _fold_lit
+            t = _fold_lit(t)                                                      # components of a tuple a helper returns are read as the components
             # a helper of the kernel module that builds a value from its arguments and then overwrites entries of it in place
             patched = []
             for z in list(subterms(t)):
@@ -152,6 +154,9 @@ def run(prog, rep, tier, repo):
                     v0 = ev0.ev(tt)
                     if v0.iv.lo == v0.iv.hi == 7.0:
                         rep.ok('at-zero', key, 'k at zero distance equals var (evaluated symbolically with var := 7)')
+                    elif v0.iv.lo <= 7.0 <= v0.iv.hi and v0.iv.lo != v0.iv.hi:
+                        # an enclosure that contains var but is not a point: part of the expression is not read (a helper returning a tuple, say)
+                        rep.undecided('at-zero', key, 'value at zero distance only enclosed in %r for var = 7 (expression partly unread)' % v0.iv, site_of(b), proof=False)
                     else:
                         rep.viol('at-zero', key, 'at zero distance the kernel evaluates to %r for var = 7, not to var' % v0.iv, site_of(b))
             else:
